@@ -292,6 +292,22 @@ class ConeBandS(_Solid):
         return np.full(3, -INF), np.full(3, INF)
 
 
+class PrismS(_Solid):
+    """Infinite vertical prism over a (multi)polygon with holes: a polygonal footprint.  The
+    signed distance of (x, y) to the polygon boundary is also the distance in space."""
+
+    def __init__(self, polys):
+        self.poly = PolygonS(polys, 0.0)
+        self.kind = "footprint"
+
+    def sdf(self, P):
+        return self.poly.sdf2(P[:, :2])
+
+    def aabb(self):
+        lo, hi = self.poly.aabb()
+        return np.array([lo[0], lo[1], -INF]), np.array([hi[0], hi[1], INF])
+
+
 class _Planar(Prim):
     def margin_on(self, P, ckey, half=None):
         """in the shape's own plane: the 2-D margin.  On any other carrier only what lies in
